@@ -229,7 +229,7 @@ EXTRA_ENC: List[Tuple[str, Callable[[str], str]]] = [
 ]
 VAR = {v.name: v for v in VARIANTS}
 # the triples over the lookahead alphabet are for the encoders/readers with context (quick tier)
-TRIPLES_FOR = {"ts:0:1", "java", "py:n:0:0"}
+TRIPLES_FOR = {"ts:0:1", "py:n:0:0"}
 
 # needs_escaping: (name, predicate, variant whose literal it talks about, quote)
 NEEDS: List[Tuple[str, Callable[[str], bool], Callable[[str], str], str]] = [
@@ -391,10 +391,11 @@ def rand_literal(ctx: Ctx, reader: str) -> str:
 # --------------------------------------------------------------------------- readers (tool-chains / spec)
 
 
-def read_all(ctx: Ctx, reader: str, lits: List[str]) -> List[Optional[Tuple[int, ...]]]:
+def read_all(ctx: Ctx, reader: str, lits: List[str], tag: str = "") -> List[Optional[Tuple[int, ...]]]:
     if not lits:
         return []
-    sc = ctx.scratch()
+    sc = ctx.scratch() / ("r-" + re.sub(r"[^A-Za-z0-9]", "_", tag or reader))
+    sc.mkdir(exist_ok=True)
     if reader == "py":
         return tc.read_python(lits, "str")
     if reader == "pyf":
@@ -474,8 +475,19 @@ def _thin(ctx: Ctx, reader: str, stream: str, k: int) -> bool:
     return k % 3 == 0
 
 
+def _parallel(jobs: List[Callable[[], Any]], workers: int = 6) -> List[Any]:
+    """Tool-chain batches are subprocess-bound: run them side by side (results in job order)."""
+    from concurrent.futures import ThreadPoolExecutor
+
+    with ThreadPoolExecutor(max_workers=workers) as ex:
+        futs = [ex.submit(j) for j in jobs]
+        return [f.result() for f in futs]
+
+
 def run_strings(ctx: Ctx, with_model: bool, items: Optional[List[Tuple[str, str]]] = None) -> None:
     items = list(texts(ctx)) if items is None else items
+    ctx.scratch()
+    plan = []
     for v in VARIANTS:
         sel = [(s, st) for (s, st) in items if (len(s) == 1 or st == "corpus" or s in ("", "ab")) or not v.single_char]
         if v.name not in TRIPLES_FOR and ctx.tier == "quick":
@@ -484,6 +496,17 @@ def run_strings(ctx: Ctx, with_model: bool, items: Optional[List[Tuple[str, str]
             # narrow literals: ASCII strings, plus all single characters / a part of the rest for the error path
             sel = [(s, st) for k, (s, st) in enumerate(sel) if all(ord(c) < 128 for c in s) or len(s) <= 1 or k % 7 == 0]
         outs = [call(v.enc, s) for s, _ in sel]
+        idx = [k for k, ((s, st), o) in enumerate(zip(sel, outs)) if o[0] == "ok" and _thin(ctx, v.reader, st, k)]
+        if v.reader == "java" and ctx.tier == "quick":
+            # literals hit by the javac-17 defect (known finding C19-F2) cost a second compiler round:
+            # in the quick tier only the corpus witnesses are sent to javac
+            idx = [k for k in idx if sel[k][1] == "corpus" or not JAVAC17_QUIRK.search(outs[k][1])]
+        plan.append((v, sel, outs, idx))
+    all_vals = _parallel([
+        (lambda v=v, outs=outs, idx=idx: read_all(ctx, v.reader, [outs[k][1] for k in idx], tag=v.name))
+        for (v, sel, outs, idx) in plan
+    ])
+    for (v, sel, outs, idx), vals in zip(plan, all_vals):
         # correspondence of the encoder
         if with_model:
             mouts = ctx.model([_enc_line(v.name, s) for s, _ in sel])
@@ -492,8 +515,6 @@ def run_strings(ctx: Ctx, with_model: bool, items: Optional[List[Tuple[str, str]
                 if _fmt_outcome(o) != m:
                     ctx.disagree("enc/" + v.name, {"variant": v.name, "text": enc_text(s)}, _fmt_outcome(o), m)
         # oracle: read back
-        idx = [k for k, ((s, st), o) in enumerate(zip(sel, outs)) if o[0] == "ok" and _thin(ctx, v.reader, st, k)]
-        vals = read_all(ctx, v.reader, [outs[k][1] for k in idx])
         val_of = dict(zip(idx, vals))
         for k, ((s, st), o) in enumerate(zip(sel, outs)):
             ctx.count((v.name, s), nontrivial=len(s) > 0, stream=st)
@@ -598,11 +619,16 @@ def run_bytes(ctx: Ctx, with_model: bool, items: Optional[List[Tuple[bytes, str]
 
 def run_decoders(ctx: Ctx) -> None:
     """The trusted Lean decoders against the real tool-chains / the independent spec readers on literal-like texts."""
-    for reader in ["py", "pyf", "cppw", "cppn", "cppc", "cs", "java", "tsq", "tst", "go"]:
+    readers = ["py", "pyf", "cppw", "cppn", "cppc", "cs", "java", "tsq", "tst", "go"]
+    ctx.scratch()
+    batches = []
+    for reader in readers:
         n = ctx.n(60, 1500) if reader in COMPILED else ctx.n(600, 10000)
         lits = [c["literal_text"] for c in corpus(ID) if c.get("reader") == reader]
         lits = [dec_text(x) for x in lits] + [rand_literal(ctx, reader) for _ in range(n)]
-        vals = read_all(ctx, reader, lits)
+        batches.append((reader, lits))
+    all_vals = _parallel([(lambda r=r, l=l: read_all(ctx, r, l, tag="dec-" + r)) for r, l in batches])
+    for (reader, lits), vals in zip(batches, all_vals):
         douts = ctx.model([f"dec {reader} {enc_text(l)}" for l in lits])
         for l, val, d in zip(lits, vals, douts):
             ctx.traces_validated += 1
